@@ -62,9 +62,9 @@ macro_rules! parse_unsigned {
     };
 }
 // decimal is the expensive radix (multiply-by-ten chains, a divider in the oracle): length <= 6 in the quick tier,
-// <= 8 in the thorough tier; the power-of-two radices run at the full length L
+// <= 7 in the thorough tier; the power-of-two radices run at the full length L
 parse_unsigned!(parse_u8_dec, 10, 6);
-parse_unsigned!(parse_u8_dec_long, 10, 8);
+parse_unsigned!(parse_u8_dec_long, 10, 7);
 parse_unsigned!(parse_u8_hex, 16, L);
 parse_unsigned!(parse_u8_oct, 8, L);
 parse_unsigned!(parse_u8_bin, 2, L);
@@ -95,7 +95,7 @@ macro_rules! parse_signed {
     };
 }
 parse_signed!(parse_i8_dec, 10, 6);
-parse_signed!(parse_i8_dec_long, 10, 8);
+parse_signed!(parse_i8_dec_long, 10, 7);
 parse_signed!(parse_i8_hex, 16, L);
 
 // the error kinds of the three syntactic classes, and the public policy forms on one concrete layout
